@@ -600,6 +600,15 @@ class Inliner(object):
                     self.failed.add(id(call))
                     self.skipped.append(('%s:%s -> %s' % (
                         self.cur[0], self.cur[1], h.name), str(e)))
+        # all-or-nothing per statement and helper: inlining one of two calls
+        # to the same helper (`h(a) and h(b)`) would destroy the symmetry
+        # the source has
+        for e in self.headers(st):
+            cands = self.candidates(e)
+            blocked = {self.callee(c).name for c, ok in cands if not ok}
+            for c, ok in cands:
+                if self.callee(c).name in blocked:
+                    self.failed.add(id(c))
         guard = 0
         while guard < 20:
             guard += 1
